@@ -207,6 +207,18 @@ def large_trace(n, p, npub=3):
     return tr
 
 
+def sweep_scalars(n):
+    """1..n, the neighbours of the powers of two and ten above n, and magnitudes of EVERY bit length up to 300 at nine positions
+    within the length (2^(m-1) * (1 + j/8), and the all-ones value): an encoder's short form, table or split into machine words
+    has its boundary at some bit length, not necessarily at a power of two"""
+    ks = set(range(1, n + 1))
+    ks |= {b + d for e in range(1, 80) for b in (1 << e, 10 ** (e // 3)) for d in (-1, 0, 1)}
+    for m in range(2, 301):
+        base = 1 << (m - 1)
+        ks |= {base + (base * j) // 8 for j in range(8)} | {(1 << m) - 1, base + 1, base + (base * 3) // 8 + 12345 % base}
+    return sorted(k for k in ks if k > 0)
+
+
 def sized_trace(spec, p):
     """int n: large_trace(n); "pub<N>": a run with N public values (interleaved with N // 3 private ones, values across
     the field) and a handful of constraints over the first, a middle and the last of them - counts around 255 / 256 / 65535
@@ -217,7 +229,7 @@ def sized_trace(spec, p):
         # every coefficient k, -k, p-k, p+k for k = 1..N and around the powers of two and ten above N, on a wire and on the constant:
         # an encoder that keeps a table (or a short form) of small coefficients has its boundary at some round number
         n = int(spec[4:])
-        ks = list(range(1, n + 1)) + sorted({b + d for e in range(1, 80) for b in (1 << e, 10 ** (e // 3)) for d in (-1, 0, 1) if b + d > n})
+        ks = sweep_scalars(n)
         tr = [["pub", 5], ["priv", 3], ["priv", -4]]
         for k in ks:
             tr.append(["con", ["add", ["mul", ["var", 0], k], ["mul", ["one"], k]], ["mul", ["var", 1], -k],
